@@ -444,6 +444,14 @@ def eq_closure_of(prog, clo, elem_ok):
     return None
 
 
+def is_next_elem(x, coll_ok):
+    """x = the element produced by advancing an iterator over a collection accepted by coll_ok"""
+    if x[0] != "payload":
+        return False
+    c = x[1][1] if x[1][0] == "trybranch" else x[1]
+    return c[0] == "call" and c[1].split("::")[-1] in ("next",) and "Iterator" in c[1] and len(c[2]) >= 1 and coll_ok(c[2][0])
+
+
 def membership(prog, t, coll_ok, elem_ok):
     """is boolean term t a test of `elem in coll`?  returns True if t is true exactly for members,
     False if t is true exactly for non-members, None if t is not such a test.  Spellings:
@@ -453,6 +461,12 @@ def membership(prog, t, coll_ok, elem_ok):
         return None
     nm = t[1]
     last = nm.split("::")[-1]
+    if nm in EQ and len(t[2]) == 2:
+        # loop form: `for x in coll { if x == e {..} }` — x is the element read by Iterator::next
+        for x, y in ((t[2][0], t[2][1]), (t[2][1], t[2][0])):
+            if elem_ok(y) and is_next_elem(x, coll_ok):
+                return EQ[nm]
+        return None
     if last == "any" and nm.endswith("Iterator::any") and len(t[2]) == 2 and coll_ok(t[2][0]):
         e = eq_closure_of(prog, t[2][1], elem_ok)
         return True if e is True else None
@@ -466,3 +480,54 @@ def membership(prog, t, coll_ok, elem_ok):
         if x[0] == "call" and x[1].split("::")[-1] in ("position", "find") and "Iterator" in x[1] and len(x[2]) == 2 and coll_ok(x[2][0]) and eq_closure_of(prog, x[2][1], elem_ok) is True:
             return nm.endswith("is_some")
     return None
+
+
+# ------------------------------------------------------------------ integer worlds (P9, exact form over literals)
+
+import engine.analysis as _an
+_an.INT_VALUE[0] = lambda t: const_int(t)
+
+
+def int_samples(prog, ctx, is_subject_int, extra=()):
+    """sample values that separate every interval the body can distinguish: each literal the
+    subject is compared with (in the body and its local callees), +-1, plus `extra`."""
+    from engine.analysis import inline_walk, cmp_operands, assumed_int, len_of
+    ks = set(extra) | {0, 1}
+    for c, path in inline_walk(prog, ctx, 2):
+        for bi, atom in c.atoms():
+            terms = list(subterms(atom[1])) if atom[0] == "bool" else [atom[1]]
+            if atom[0] == "int" and is_subject_int(atom[1]):
+                for k_ in atom[2]:
+                    if k_ != "otherwise":
+                        try:
+                            ks.add(int(k_))
+                        except ValueError:
+                            pass
+            for s_ in terms:
+                co = cmp_operands(s_)
+                if co is not None:
+                    for x, y in ((co[1], co[2]), (co[2], co[1])):
+                        if is_subject_int(x):
+                            v = const_int(y)
+                            if v is not None:
+                                ks.add(v)
+                if s_[0] == "call" and "ops::Range" in s_[1] and s_[1].endswith("contains"):
+                    for z in subterms(s_[2][0]):
+                        v = const_int(z) if z[0] == "const" else None
+                        if v is not None:
+                            ks.add(v)
+    out = set()
+    for k_ in ks:
+        out |= {k_ - 1, k_, k_ + 1}
+    return sorted(v for v in out if v >= 0)
+
+
+def len_outcomes(prog, ctx, is_subject, extra=()):
+    """{length: success reachable?} for the sample lengths of the str/Vec/slice accepted by is_subject"""
+    from engine.analysis import len_of
+    isl = lambda t: len_of(t) is not None and is_subject(len_of(t))
+    out = {}
+    for v in int_samples(prog, ctx, isl, extra):
+        w = ctx.assume_len(is_subject, v).settle()
+        out[v] = any(e["kind"] != "err" for e in exits(w))
+    return out
